@@ -344,7 +344,13 @@ func (m *symModel) size() uint64 {
 func buildAscending(tag string, t *Mast, md *symModel, n int) []uint64 {
 	var ks []uint64
 	for i := 0; i < n; i++ {
-		k, v := verifNondetKey("k"), verifNondetVal("v")
+		var k, v uint64
+		if verifBoundOr("CONCRETEKEYS", 0) == 1 {
+			// directed run: the base tree is concrete (keys 4,8,12,...; the operations applied to it stay symbolic)
+			k, v = uint64(4*(i+1)), uint64(i)
+		} else {
+			k, v = verifNondetKey("k"), verifNondetVal("v")
+		}
 		if i > 0 {
 			verifAssume(ks[i-1] < k)
 		}
@@ -355,6 +361,19 @@ func buildAscending(tag string, t *Mast, md *symModel, n int) []uint64 {
 				d /= 3
 			}
 			verifAssume(verifLayer(k) == uint8(d%3))
+		}
+		if verifBoundOr("LRULER", 0) == 1 {
+			// layers follow the ruler sequence 0,1,0,2,0,1,0,3,... (what the integer keys 1..n get at
+			// branch factor 2), capped at Lmax: tall trees on a single build path
+			l, j := 0, i+1
+			for j%2 == 0 {
+				l++
+				j /= 2
+			}
+			if lm := verifBound("Lmax"); l > lm {
+				l = lm
+			}
+			verifAssume(verifLayer(k) == uint8(l))
 		}
 		err := t.Insert(vctx, symKey{k}, v)
 		verifAssert("C01."+tag+".insert.err", err == nil)
